@@ -3,9 +3,11 @@
 // repo's working tree, 1..4 explicit MetricReader subclasses collected explicitly, driven by the op lines the Lean
 // model driver (lean/Driver/C17.lean) also reads.
 //
-//   obs cfg <D|C,...> ; create <oc|ou|og|sg>[d] ; addcb <instr> <cb> ; rmcb <instr> <cb> ; destroy <instr> ;
+//   obs cfg <D|C,...> ; create <oc|ou|og|sg>[d] ; dup <instr> ; addcb <instr> <cb> ; rmcb <instr> <cb> ; destroy <instr> ;
 //       grec <instr> <attr> <value> ; collect <r> <cb>=<attr>:<value>,... ...
 //
+// `dup i`: a further handle for the observable instrument of handle i (same name, type, value type, creation form): the meter
+// gives it the storage the instrument already has; callbacks are registered, removed and cleaned up per handle.
 // A kind with the suffix `d` is the double flavour (CreateDoubleObservable* / CreateDoubleGauge, ObserverResultT<double>,
 // the double sum / last-value aggregations): the script's value v is observed as v * 2^-10 and printed as v again.
 // Instruments are created through the (name) / (name, description) / (name, description, unit) forms in rotation; the
@@ -19,6 +21,7 @@
 // collection (the harness makes the system clock advance around every collection, so the windows are disjoint
 // and a clock tie cannot occur), "?" anything else.  Double values are fed as k * 2^-10 and printed as k.
 #include "common.h"
+#include "metrics_factories.h"
 
 #include <algorithm>
 #include <chrono>
@@ -92,6 +95,7 @@ struct World
   nostd::shared_ptr<apim::Meter> meter;
   std::vector<std::string> kinds;  // oc | ou | og | sg
   std::vector<bool> dbl;           // the double flavour
+  std::vector<size_t> canon;       // handle -> the handle that created its instrument (itself, unless made by `dup`)
   size_t nobs = 0;                 // Observe / Record calls so far: the overload used rotates with it
   std::vector<nostd::shared_ptr<apim::ObservableInstrument>> obs;  // null for sync gauges / destroyed
 #if OPENTELEMETRY_ABI_VERSION_NO >= 2
@@ -102,12 +106,13 @@ struct World
   std::map<int, std::vector<std::pair<long long, long long>>> script;
   std::vector<int> calls;
   std::vector<std::pair<TimeNs, TimeNs>> windows;
-  TimeNs sdk_start = 0;
+  TimeNs sdk_start = 0;            // exact, when the construction path used exposes the MeterContext
+  TimeNs sdk_lo = 0, sdk_hi = -1;   // else: the window in which the provider was constructed
 
   std::string ts(common::SystemTimestamp t) const
   {
     TimeNs v = t.time_since_epoch().count();
-    if (v == sdk_start) return "sdk";
+    if (ctx ? v == sdk_start : (sdk_lo < v && v <= sdk_hi)) return "sdk";
     for (size_t k = 0; k < windows.size(); k++)
       if (windows[k].first < v && v <= windows[k].second) return "#" + std::to_string(k + 1);
     return "?";
@@ -323,6 +328,7 @@ static std::string handle_obs(const std::vector<std::string> &t)
   auto ops = vh::split_ops(t, 1);
   if (ops.empty() || ops[0].size() != 2 || ops[0][0] != "cfg") return "bad-op";
   World w;
+  const uint64_t hash = vhm::case_hash(t);
   for (int i = 0; i < 8; i++) w.cbs[i] = CbState{i, &w};
   std::vector<sdkm::AggregationTemporality> temps;
   for (auto &r : split(ops[0][1], ','))
@@ -333,11 +339,14 @@ static std::string handle_obs(const std::vector<std::string> &t)
   }
   if (temps.empty() || temps.size() > 4) return "bad-op";
   {
-    std::unique_ptr<sdkm::ViewRegistry> registry(new sdkm::ViewRegistry());
-    std::unique_ptr<sdkm::MeterContext> ctx(new sdkm::MeterContext(std::move(registry)));
-    w.ctx       = ctx.get();
-    w.sdk_start = w.ctx->GetSDKStartTime().time_since_epoch().count();
-    w.provider.reset(new sdkm::MeterProvider(std::move(ctx)));
+    // provider / context / registry through the constructors or the *Factory::Create overloads, chosen by the hash of the
+    // case text (metrics_factories.h)
+    w.sdk_lo = tick();
+    auto built = vhm::make_provider(hash, vhm::mix(hash, 1) % 2 ? vhm::make_registry(hash) : nullptr, nullptr, nullptr);
+    w.provider = built.provider;
+    w.ctx      = built.ctx;
+    w.sdk_hi   = tick();
+    if (w.ctx) w.sdk_start = w.ctx->GetSDKStartTime().time_since_epoch().count();
     for (auto tmp : temps)
     {
       auto r = std::make_shared<TestReader>(tmp);
@@ -376,9 +385,9 @@ static std::string handle_obs(const std::vector<std::string> &t)
                                                         : sdkm::InstrumentType::kGauge;
         const sdkm::AggregationType ag =
             (op[1] == "oc" || op[1] == "ou") ? sdkm::AggregationType::kSum : sdkm::AggregationType::kLastValue;
-        std::unique_ptr<sdkm::InstrumentSelector> is(new sdkm::InstrumentSelector(ty, *name, ""));
-        std::unique_ptr<sdkm::MeterSelector> ms(new sdkm::MeterSelector("m", "", ""));
-        std::unique_ptr<sdkm::View> view(new sdkm::View("", "", "", ag));
+        auto is   = vhm::make_isel(vhm::mix(hash, 100 + w.kinds.size()), ty, *name, "");
+        auto ms   = vhm::make_msel(vhm::mix(hash, 200 + w.kinds.size()), "m", "", "");
+        auto view = vhm::make_view(vhm::mix(hash, 300 + w.kinds.size()), "", "", "", ag);
         w.provider->AddView(std::move(is), std::move(ms), std::move(view));
       }
       if (op[1] == "oc") o = dbl ? CREATE(CreateDoubleObservableCounter) : CREATE(CreateInt64ObservableCounter);
@@ -401,6 +410,33 @@ static std::string handle_obs(const std::vector<std::string> &t)
       outs.push_back("i" + std::to_string(w.kinds.size()));
       w.kinds.push_back(op[1]);
       w.dbl.push_back(dbl);
+      w.canon.push_back(w.canon.size());
+    }
+    else if (op.size() == 2 && op[0] == "dup")
+    {
+      if (!parse_nat(op[1], ins) || static_cast<size_t>(ins) >= w.kinds.size() || w.kinds[ins] == "sg" || !w.obs[ins]) return "bad-op";
+      const size_t c0      = w.canon[ins];
+      const size_t variant = c0 % 3;
+      const bool dbl       = w.dbl[ins];
+      std::unique_ptr<std::string> name(new std::string("o" + std::to_string(c0)));
+      std::unique_ptr<std::string> desc(new std::string("d" + std::to_string(c0)));
+      std::unique_ptr<std::string> unit(new std::string("By"));
+      nostd::string_view nm(name->data(), name->size()), ds(desc->data(), desc->size()), us(unit->data(), unit->size());
+#define CREATE(F) (variant == 0 ? w.meter->F(nm) : (variant == 1 ? w.meter->F(nm, ds) : w.meter->F(nm, ds, us)))
+      nostd::shared_ptr<apim::ObservableInstrument> o;
+      if (w.kinds[ins] == "oc") o = dbl ? CREATE(CreateDoubleObservableCounter) : CREATE(CreateInt64ObservableCounter);
+      else if (w.kinds[ins] == "ou") o = dbl ? CREATE(CreateDoubleObservableUpDownCounter) : CREATE(CreateInt64ObservableUpDownCounter);
+      else o = dbl ? CREATE(CreateDoubleObservableGauge) : CREATE(CreateInt64ObservableGauge);
+#undef CREATE
+      w.obs.push_back(o);
+      outs.push_back("i" + std::to_string(w.kinds.size()));
+      w.kinds.push_back(w.kinds[ins]);
+      w.dbl.push_back(dbl);
+      w.canon.push_back(c0);
+#if OPENTELEMETRY_ABI_VERSION_NO >= 2
+      w.gauges.resize(w.kinds.size());
+      w.dgauges.resize(w.kinds.size());
+#endif
     }
     else if (op.size() == 3 && (op[0] == "addcb" || op[0] == "rmcb"))
     {
